@@ -368,7 +368,10 @@ pub fn run(args: &Args) -> i32 {
     rec.count("window_descriptors", 256);
     rec.count("single_segment_sizes", singles.len() as u64);
     // few threads: accepted large windows reserve (virtual) memory
-    cases.par_iter().for_each(|c| run_case(&rec, c));
+    cases.par_iter().enumerate().for_each(|(k, c)| {
+        let _g = case_guard(11, k as u64);
+        run_case(&rec, c)
+    });
     rec.absorb_feats();
     rec.set_extra("exhaustive", json!(true));
     rec.set_extra("allocation_check", json!(calloc::ENABLED));
